@@ -72,7 +72,12 @@ def gen_pair(rng):
         name = "m%d" % i
         kind = rng.choice(["union", "optret", "optarg", "ast", "array", "int", "optional", "default"])
         a, b = rng.sample(["String", "Int", "Float", "Symbol"], 2)
-        if kind == "union":
+        if kind == "union" and rng.random() < 0.4:
+            a2, b2 = rng.sample(["Number", "OptionalString", "String", "Int", "Integer", "IntInt"], 2)
+            c = {"name": name, "arguments": [{"type": a2 + "|" + b2}], "return_type": {"type": a2 + "|" + b2}}
+            l = {"name": name, "arguments": [{"type": [a2, b2]}], "return_type": {"type": [a2, b2]}}
+            argv = ["1", "1.5", "'s'", "nil", ":a"]
+        elif kind == "union":
             c = {"name": name, "arguments": [{"type": a + "|" + b}], "return_type": {"type": a + "|" + b}}
             l = {"name": name, "arguments": [{"type": [a, b]}], "return_type": {"type": [a, b]}}
             argv = [ARGS_OK[a], ARGS_OK[b], "nil", "[1]"]
@@ -115,16 +120,65 @@ def gen_pair(rng):
     return compact, long_, calls
 
 
+_E2E = [0]
+
+
+def impl_pairs(ctx, n, wd):
+    """Property oracle on the implementation alone: both notations through the real parser (godrv), encodings must be equal."""
+    rng = ctx.rng
+    members = [x for x in NAMES if "::" not in x] + ["KeyArray", "FloatArray", "OptionalInt", "IntInt", "DefaultString"]
+    pairs = []
+    for _ in range(n):
+        a, b, c = rng.choice(members), rng.choice(members), rng.choice(members)
+        key = rng.choice(["", "", "k:"])
+        ast, dflt = rng.randint(0, 1), rng.randint(0, 1)
+        fl = "%d%d%d" % (rng.randint(0, 1), rng.randint(0, 1), rng.randint(0, 1))
+        kind = rng.randrange(8)
+        if kind == 0:
+            parts = [a, b] if rng.random() < 0.7 else [a, b, c]
+            pairs.append(("pret %s s:%s" % (fl, "|".join(parts)), "pret %s a:%s" % (fl, ",".join(parts))))
+        elif kind == 1:
+            parts = [a, b] if rng.random() < 0.7 else [a, b, c]
+            pairs.append(("pargs s:%s~%s~%d~%d" % ("|".join(parts), key, ast, dflt), "pargs a:%s~%s~%d~%d" % (",".join(parts), key, ast, dflt)))
+        elif kind == 2:
+            pairs.append(("pret %s s:?%s" % (fl, a), "pret %s a:%s,NilClass" % (fl, a)))
+        elif kind == 3:
+            pairs.append(("pargs s:?%s~%s~%d~%d" % (a, key, ast, dflt), "pargs s:%s~%s~%d~1" % (a, key, ast)))
+        elif kind == 4:
+            pairs.append(("pargs s:*%s~%s~%d~%d" % (a, key, ast, dflt), "pargs s:%s~%s~1~%d" % (a, key, dflt)))
+        elif kind == 5:
+            t = rng.choice(BASES)
+            pairs.append(("ptype [%s]" % t, "builtin %sArray" % t))
+        elif kind == 6:
+            t = rng.choice(BASES)
+            pairs.append(("builtin Optional%s" % t, "pret 000 a:%s,NilClass" % t))
+            pairs.append(("builtin Int", "builtin Integer"))
+        else:
+            t = rng.choice(BASES + ["Bool", "Block", "Untyped"])
+            pairs.append(("pargs s:Default%s~%s~%d~%d" % (t, key, ast, dflt), "pargs s:%s~%s~%d~1" % (t, key, ast)))
+    ops = [x for p in pairs for x in p]
+    ans = common.run_lines(ctx.godrv, ops, cwd=wd)
+    failures = []
+    for i, (x, y) in enumerate(pairs):
+        if ans[2 * i] != ans[2 * i + 1]:
+            failures.append({"kind": "notations-parse-differently", "compact": x, "long": y, "parsed_compact": ans[2 * i][:800],
+                             "parsed_long": ans[2 * i + 1][:800], "key": ["pair", x.split(" ")[0], x[-30:]],
+                             "replay_cmd": "printf '%s\\n%s\\n' | godrv   # built from /repo with -tags verif, cwd with .ti-config" % (x, y)})
+    ctx.cov["layers"]["impl-notation-pairs"] = {"runs": len(ops), "distinct_nontrivial": len(set(pairs))}
+    return failures
+
+
 def run_e2e(ctx, n):
     rng = ctx.rng
     base = os.path.join(common.REPO, "test", ".ti-config")
     cases = []
+    _E2E[0] += 1
     for k in range(n):
         compact, long_, calls = gen_pair(rng)
         prog = "\n".join(calls) + "\n"
         dirs = []
         for tag, ms in (("c", compact), ("l", long_)):
-            d = os.path.join(ctx.tmp, "e2e", "%d%s" % (k, tag))
+            d = os.path.join(ctx.tmp, "e2e%d" % _E2E[0], "%d%s" % (k, tag))
             os.makedirs(d)
             shutil.copytree(base, os.path.join(d, ".ti-config"))
             use_static = k % 2 == 0
@@ -173,7 +227,8 @@ def run(ctx):
         dis["config"] = common.run_stream(ctx, "config", ops, cwd=wd)
     for o in ops[30:34]:
         ctx.sample(o)
-    failures = run_e2e(ctx, ctx.pick(120, 1200))
+    failures = impl_pairs(ctx, ctx.pick(4000, 40000), wd)
+    failures += run_e2e(ctx, ctx.pick(120, 1200))
 
     def search():
         return run_e2e(ctx, 600)
